@@ -20,24 +20,58 @@ DTYPES = ["complex128", "float64", "complex64", "float32"]
 # independent reference
 # ----------------------------------------------------------------------------------------------
 
+def contract_dense(ops, out):
+    """sum over all labels not in ``out`` of the product of the operands [(array, labels)]: pairwise two-operand
+    einsums in a connectivity-driven order (hyper labels and repeated labels allowed)"""
+    ops = [(np.asarray(a), list(ii)) for a, ii in ops]
+    cur, cinds = ops.pop(0)
+    while True:
+        rest = set(out)
+        for _, ii in ops:
+            rest.update(ii)
+        keep = [ix for ix in dict.fromkeys(cinds) if ix in rest]
+        if not ops:
+            break
+        j = max(range(len(ops)), key=lambda q: (len(set(ops[q][1]) & set(cinds)), -ops[q][0].size))
+        a, ai = ops.pop(j)
+        rest = set(out)
+        for _, ii in ops:
+            rest.update(ii)
+        new = [ix for ix in dict.fromkeys(list(cinds) + list(ai)) if ix in rest]
+        ids = {ix: q for q, ix in enumerate(dict.fromkeys(list(cinds) + list(ai)))}
+        cur = np.einsum(cur, [ids[i] for i in cinds], a, [ids[i] for i in ai], [ids[i] for i in new], optimize=True)
+        cinds = new
+    ids = {ix: q for q, ix in enumerate(dict.fromkeys(list(cinds) + list(out)))}
+    return np.einsum(cur, [ids[i] for i in cinds], [ids[i] for i in out])
+
+
 def dense_of(tn, out_inds, extra=()):
-    """einsum of the raw tensor data (in double precision) onto ``out_inds``; ``extra`` = [(vector, index)] are
+    """dense array of the raw tensor data (in double precision) on ``out_inds``; ``extra`` = [(vector, index)] are
     diagonal bond weights; the stored exponent is included"""
-    ids = {}
+    ops = [(np.asarray(t.data).astype(np.complex128), t.inds) for t in tn.tensors]
+    ops += [(np.asarray(vec).astype(np.complex128), [ind]) for vec, ind in extra]
+    return contract_dense(ops, list(out_inds)) * 10.0 ** float(tn.exponent)
 
-    def ix(i):
-        return ids.setdefault(i, len(ids))
 
-    args = []
-    for t in tn.tensors:
-        args.append(np.asarray(t.data).astype(np.complex128))
-        args.append([ix(i) for i in t.inds])
-    for vec, ind in extra:
-        args.append(np.asarray(vec).astype(np.complex128))
-        args.append([ix(ind)])
-    args.append([ix(i) for i in out_inds])
-    x = np.einsum(*args, optimize="greedy")
-    return x * 10.0 ** float(tn.exponent)
+def dense_of_two_layers(tn, tag_a, tag_b, out_inds):
+    """dense array of a two-layer network: each layer is densified on its own (labels shared with the other layer or
+    dangling stay open) and the two blocks are joined by one two-operand einsum"""
+    ta = [t for t in tn.tensors if tag_a in t.tags]
+    tb = [t for t in tn.tensors if tag_b in t.tags]
+    if len(ta) + len(tb) != tn.num_tensors:
+        raise ValueError("layers do not partition the network")
+    ca, cb = {}, {}
+    for t in ta:
+        for ix in t.inds:
+            ca[ix] = ca.get(ix, 0) + 1
+    for t in tb:
+        for ix in t.inds:
+            cb[ix] = cb.get(ix, 0) + 1
+    oa = [ix for ix in ca if ix in cb or ix in out_inds]
+    ob = [ix for ix in cb if ix in ca or ix in out_inds]
+    A = contract_dense([(np.asarray(t.data).astype(np.complex128), t.inds) for t in ta], oa)
+    B = contract_dense([(np.asarray(t.data).astype(np.complex128), t.inds) for t in tb], ob)
+    return contract_dense([(A, oa), (B, ob)], list(out_inds)) * 10.0 ** float(tn.exponent)
 
 
 def ref_rdm(psi, pos, normalized=True):
@@ -383,7 +417,7 @@ def _tnag_one_state(cx, rng, tn, geo, dtype, how, rep):
             outer = set(r.outer_inds())
             if outer != set(kix) | set(bix):
                 return f"outer indices {sorted(outer)} != kept ket+bra indices"
-            got = dense_of(r, kix + bix).reshape(dn.dim(w), dn.dim(w))
+            got = dense_of_two_layers(r, "KET", "BRA", kix + bix).reshape(dn.dim(w), dn.dim(w))
             return cmp_matrix(got, dn.rdm(w, False), dn.norm2, tol, "make_reduced_density_matrix")
 
         cx.check("make_reduced_density_matrix(where): ket labels x bra labels denote |psi><psi| traced over the rest",
@@ -601,3 +635,120 @@ def _tnag_one_state(cx, rng, tn, geo, dtype, how, rep):
             cx.check("norm_gloop_expand with a spanning generalized loop == sqrt(<psi|psi>)",
                      dict(base, gauges=gname, strip_exponent=se), t_ngl)
     del unit_dim
+
+
+# ----------------------------------------------------------------------------------------------
+# generic compressed-contraction routes with an untruncating cap
+# ----------------------------------------------------------------------------------------------
+
+def _compressed_geometries(quick):
+    g = []
+    if quick:
+        g += [("mps-as-gen", 2, False), ("mps-as-gen", 5, False), ("mps-as-gen", 4, True),
+              ("peps", 1, 3, 2, 2, False), ("peps", 2, 2, 2, 3, False), ("peps", 2, 3, 2, 2, False),
+              ("peps", 3, 3, 2, 2, False), ("peps", 3, 2, 2, 2, (False, True)),
+              ("graph", 1, 0, "int"), ("graph", 2, 0, "str"), ("graph", 5, 2, "tuple"), ("graph", 6, 3, "int"),
+              ("tree", 5, "str")]
+    else:
+        g += [("mps-as-gen", L, False) for L in (1, 2, 3, 5, 8)] + [("mps-as-gen", L, True) for L in (3, 4, 6)]
+        g += [("peps", 1, 1, 1, 2, False), ("peps", 1, 3, 2, 2, False), ("peps", 3, 1, 2, 3, False),
+              ("peps", 2, 2, 3, 2, False), ("peps", 2, 3, 2, 2, False), ("peps", 3, 2, 2, 3, False),
+              ("peps", 3, 3, 2, 2, False), ("peps", 3, 3, 2, 2, True), ("peps", 3, 2, 2, 2, (False, True))]
+        g += [("graph", 1, 0, "int"), ("graph", 2, 0, "str"), ("graph", 3, 1, "int"), ("graph", 4, 2, "tuple"),
+              ("graph", 5, 2, "str"), ("graph", 6, 3, "int"), ("graph", 7, 3, "int"), ("graph", 8, 2, "tuple"),
+              ("tree", 4, "int"), ("tree", 7, "str")]
+    return g
+
+
+@driver("C13", "generic-compressed-routes", chunks=4, timeout=300,
+        bound="TensorNetworkGenVector.partial_trace / local_expectation / compute_local_expectation (compressed contraction "
+              "of the overlap) with max_bond=4096 (above every exact bond of the domain) and cutoff=0 on PEPS up to 3x3, "
+              "graph states / trees <= 8 sites, MPS viewed as generic vectors (L<=8, open and periodic): flatten in "
+              "{True, False, 'all'}, method in {contract_compressed, contract_around}, reduce=True for two-site terms, "
+              "symmetrized auto/True/False, normalized or not, 4 dtypes, stored exponents; PEPS3D.local_expectation "
+              "(inherited generic route). tolerance 1e-8 (double) / 3e-3 (single) relative to operator norm x <psi|psi>")
+def compressed_routes(cx):
+    import warnings
+
+    warnings.filterwarnings("ignore")
+    rng = cx.rng
+    geos = _compressed_geometries(cx.quick)
+    expos = ["none", "attr", "equalize"]
+    for gi, geo in enumerate(geos):
+        for di, dtype in enumerate(DTYPES):
+            if cx.quick and di >= 2 and (gi + di) % 2:
+                continue
+            how = expos[(di + gi) % 3]
+            if not cx.mine():
+                continue
+            if cx.out_of_time():
+                cx.inconclusive.append("generic-compressed-routes: time budget exhausted")
+                return
+            tn = build_state(rng, geo, dtype)
+            set_exponent(tn, rng, how, dtype)
+            base = dict(geo=geo_json(geo), dtype=dtype, exponent=how != "none", expo=how)
+            tol = tol_of(dtype, 10)
+            dn = Dense(tn)
+            wheres = pick_wheres(rng, dn.sites, count=3 if cx.quick else 5)
+            ops = {w: rand_op(rng, dn.dim(w)) for w in wheres}
+            for w in wheres:
+                G = ops[w]
+                grid = list(itertools.product((True, False, "all"), ("contract_compressed", "contract_around"), (True, False)))
+                for flatten, method, nrm in grid:
+                    sym = ["auto", True, False][int(rng.integers(3))]
+                    reduces = [False] + ([True] if len(w) == 2 and method == "contract_compressed" else [])
+                    for red in reduces:
+                        p = dict(base, where=jw(w), flatten=flatten, method=method, normalized=nrm, symmetrized=sym, reduce=red,
+                                 n_keep=len(w), n_sites=len(dn.sites))
+                        kw = dict(max_bond=4096, optimize="greedy", flatten=flatten, method=method, normalized=nrm,
+                                  symmetrized=sym, reduce=red, cutoff=0.0)
+
+                        def t_pt(w=w, kw=kw, nrm=nrm):
+                            r = tn.partial_trace(w, **kw)
+                            return cmp_matrix(r, dn.rdm(w, nrm), 1.0 if nrm else dn.norm2, tol, "partial_trace",
+                                              trace=1.0 if nrm else None)
+
+                        cx.check("TensorNetworkGenVector.partial_trace (compressed, untruncating) == dense partial trace", p, t_pt)
+
+                        def t_le(w=w, G=G, kw=kw, nrm=nrm):
+                            r = tn.local_expectation(G, w, **kw)
+                            return cmp_scalar(r, dn.expec(G, w, nrm), dn.scale(G, nrm), tol)
+
+                        cx.check("TensorNetworkGenVector.local_expectation (compressed, untruncating) == dense value", p, t_le)
+            terms = {w: ops[w] for w in wheres}
+            for nrm, ra, flatten in itertools.product((True, False), (True, False), (True, False)):
+                if geo[0] == "peps":
+                    break  # the 2D class overrides compute_local_expectation (boundary route, see the lattice driver)
+
+                def t_cle(nrm=nrm, ra=ra, flatten=flatten, terms=terms):
+                    r = tn.compute_local_expectation(terms, max_bond=4096, optimize="greedy", normalized=nrm, return_all=ra,
+                                                     flatten=flatten, cutoff=0.0)
+                    sc = max(dn.scale(G, nrm) for G in terms.values())
+                    refs = {w: dn.expec(G, w, nrm) for w, G in terms.items()}
+                    if not ra:
+                        return cmp_scalar(r, sum(refs.values()), sc * len(terms), tol, "sum of terms")
+                    if set(r) != set(terms):
+                        return f"keys {list(r)}"
+                    for w in terms:
+                        e = cmp_scalar(r[w], refs[w], sc, tol, f"term {w}")
+                        if e:
+                            return e
+
+                cx.check("TensorNetworkGenVector.compute_local_expectation (compressed, untruncating) == dense values",
+                         dict(base, normalized=nrm, return_all=ra, flatten=flatten, nterms=len(terms)), t_cle)
+    # the generic route as inherited by the 3D class
+    for gi, geo in enumerate([("peps3d", 2, 2, 2, 2, 2), ("peps3d", 1, 2, 2, 2, 2)]):
+        if not cx.mine():
+            continue
+        dtype = DTYPES[gi % 2]
+        tn = build_state(rng, geo, dtype)
+        dn = Dense(tn)
+        for w in pick_wheres(rng, dn.sites, count=3):
+            G = rand_op(rng, dn.dim(w))
+            for nrm in (True, False):
+                def t_le3(w=w, G=G, nrm=nrm):
+                    r = tn.local_expectation(G, w, max_bond=4096, optimize="greedy", normalized=nrm, cutoff=0.0)
+                    return cmp_scalar(r, dn.expec(G, w, nrm), dn.scale(G, nrm), tol_of(dtype, 10))
+
+                cx.check("PEPS3D.local_expectation (generic compressed route inherited from TensorNetworkGenVector) == dense value",
+                         dict(geo=geo_json(geo), dtype=dtype, where=jw(w), normalized=nrm), t_le3)
